@@ -452,4 +452,29 @@ theorem ptr_map_agrees_with_std :
   rw [h]
   simp only [ptrMapTy, ptrMapDoc]; c17_eval
 
+/-- **End to end, file level, documents with keys colliding up to case** (regression: thorough seed 15840): with the
+sorted walk of `toLowerCaseKeyMap` the file-level API is format independent on such documents too. -/
+theorem file_load_format_independent_det (o : Opts) (fs : Fields) (d : J) (t : T) (hd : plainDoc d = true)
+    (ht : embT d = some t) (e1 e2 : Str) (f1 f2 : Fmt) (h1 : loaderOf e1 = some f1) (h2 : loaderOf e2 = some f2)
+    (expand : Str → Str) (run : Fmt → Str → R Val) (c1 c2 : Str)
+    (hr1 : run f1 c1 = loadFmtDet o fs d t f1) (hr2 : run f2 c2 = loadFmtDet o fs d t f2) :
+    confLoad expand false e1 run c1 = confLoad expand false e2 run c2 := by
+  have a := formats_agree_det o fs d t hd ht
+  have all : ∀ f, loadFmtDet o fs d t f = loadJsonDet o fs d := by
+    intro f; cases f
+    · rfl
+    · exact a.1
+    · exact a.2
+  simp only [confLoad, h1, h2, loadContent, if_false, Bool.false_eq_true, hr1, hr2, all]
+
+/-- on a document with colliding keys the association list in document order is NOT the model of the code: the walk in
+ascending key order decides (`{"PORT":"x","port":1}`: document order rejects, the code — `port` is walked last —
+accepts with Port = 1).  The driver therefore models `load`-type ops on such documents by `loadJsonDet`. -/
+theorem sorted_walk_is_the_model_on_collisions :
+    noCaseCollision portDocB = false ∧ loadJson portTy portDocB = .error .err ∧
+    loadJsonDet confOpts portTy portDocB = loadJson portTy portDocA := by
+  refine ⟨by decide, pinned_collision_order_dependent.2.1, ?_⟩
+  have hs : sortDoc portDocB = portDocA := by decide
+  simp only [loadJsonDet, hs]; rfl
+
 end GoZero.C17
